@@ -284,6 +284,8 @@ namespace hs
             if (has(sut, "ll."))
                 sut = pick(r, POOLS);
         }
+        else if (profile == "C03")
+            sut = r.chance(1, 6) ? pick(r, ARENAS) : any_user(); // arenas: block sources retried after a failure
         else if (profile == "C16")
         {
             // pools (small: foreign / misplaced pointers; all: double free) and stacks (bad markers)
